@@ -64,9 +64,25 @@ Definition step_post (d : DieSt) (op : die_op) (out : outcome) (d' : DieSt) : Pr
       tiles (ground d') (bbox d) /\
       Forall (fun c => same_attrs (bbox d) c /\ rloc c = NOPOLY) (ground d')
   | OSplit _ _, Raised | OGrid _ _, Raised => d' = d
-  | ORead, Lists refin fixd => d' = d /\ refin = refinable d /\ fixd = fixedr d
+  | ORead, Lists refin fixd => d' = d /\ Permutation (refinable d) refin /\ Permutation (fixedr d) fixd
   | _, _ => False
   end.
+
+Lemma die_perm_sound a b : die_perm a b = true ->
+  bbox a = bbox b /\ Permutation (spec a) (spec b) /\ Permutation (ground a) (ground b) /\
+  blockages a = blockages b /\ fixedr a = fixedr b.
+Proof.
+  unfold die_perm. intro H.
+  repeat match type of H with (_ && _) = true => apply andb_true_iff in H; destruct H as [H ?] end.
+  apply same_rect_eq in H.
+  repeat match goal with H : rects_eqb _ _ = true |- _ => apply rects_eqb_eq in H end.
+  repeat match goal with H : perm_rects _ _ = true |- _ => apply perm_rects_sound in H end.
+  splits; assumption.
+Qed.
+Lemma die_perm_refl a : die_perm a a = true.
+Proof.
+  unfold die_perm. rewrite same_rect_refl, !perm_rects_refl, !(proj2 (rects_eqb_eq _ _) eq_refl). reflexivity.
+Qed.
 
 Theorem step_sound : forall d op out d', die_inv d -> step_ok d op out d' = true ->
   step_post d op out d' /\ die_inv d'.
@@ -83,19 +99,25 @@ Proof.
     split; [unfold step_post; splits; auto | split; assumption].
   - (* grid returned *)
     destruct (initial_grid d nr nc) as [m| |] eqn:G; try discriminate.
-    apply die_same_eq in H. subst d'.
+    apply die_perm_sound in H. destruct H as (Pb & Ps & Pg & Pbl & Pf).
     pose proof (initial_grid_sound d nr nc m G W) as (Q & Eb & Es & Ebl & Ef & L & Tg & A).
+    assert (Es' : spec d' = []).
+    { rewrite Es in Ps. apply Permutation_nil in Ps. exact Ps. }
+    assert (Tg' : tiles (ground d') (bbox d)).
+    { eapply FrameModel.Die.DieFacts.tiles_perm; [exact Pg | exact Tg]. }
     split.
-    + unfold step_post. splits; auto.
-    + split; [rewrite Eb; exact W|].
-      destruct Q as (_ & _ & _ & _ & Qb & Qf & _). rewrite Qb in Ebl. rewrite Qf in Ef.
-      unfold refinable. rewrite Es, Ebl, Ef, Eb. cbn [app]. rewrite app_nil_r. exact Tg.
+    + unfold step_post. splits; auto; try congruence.
+      * rewrite <- (Permutation_length Pg). exact L.
+      * eapply Permutation_Forall; [exact Pg | exact A].
+    + split; [rewrite <- Pb, Eb; exact W|].
+      destruct Q as (_ & _ & _ & _ & Qb & Qf & _).
+      unfold refinable. rewrite Es', <- Pbl, <- Pf, Ebl, Ef, Qb, Qf, <- Pb, Eb. cbn [app]. rewrite app_nil_r. exact Tg'.
   - (* grid raised *)
     apply andb_true_iff in H. destruct H as [_ H]. apply die_same_eq in H. subst d'.
     split; [unfold step_post; splits; auto | split; assumption].
   - (* read *)
     apply andb_true_iff in H. destruct H as [H H3]. apply andb_true_iff in H. destruct H as [H1 H2].
-    apply die_same_eq in H1. subst d'. apply rects_eqb_eq in H2, H3.
+    apply die_same_eq in H1. subst d'. apply perm_rects_sound in H2, H3.
     split; [unfold step_post; splits; auto | split; assumption].
 Qed.
 
@@ -178,7 +200,7 @@ Proof.
       * split; assumption.
   - destruct (initial_grid d nr nc) as [m| |] eqn:G.
     + exists Returned, m. split; [reflexivity|].
-      assert (K : step_ok d (OGrid nr nc) Returned m = true) by (cbn [step_ok]; rewrite G; apply die_same_refl).
+      assert (K : step_ok d (OGrid nr nc) Returned m = true) by (cbn [step_ok]; rewrite G; apply die_perm_refl).
       split; [exact K|]. destruct (step_sound d (OGrid nr nc) Returned m I K) as [P I'].
       split; [exact I'|]. destruct P as (_ & _ & _ & Q & Es & L & _).
       destruct Q as (A1 & A2 & _). unfold refinable. rewrite Es. cbn [app].
@@ -188,7 +210,7 @@ Proof.
       * cbn [step_ok]. rewrite G. cbn [rejects andb]. apply die_same_refl.
       * split; assumption.
   - exists (Lists (refinable d) (fixedr d)), d. split; [reflexivity|]. split.
-    + cbn [step_ok]. rewrite die_same_refl, !(proj2 (rects_eqb_eq _ _) eq_refl). reflexivity.
+    + cbn [step_ok]. rewrite die_same_refl, !perm_rects_refl. reflexivity.
     + split; assumption.
 Qed.
 
